@@ -164,7 +164,12 @@ def load_matchfile(
     np_lines = np_lines[np_lines != ""]
     # Remove duplicate lines
     _, idx = np.unique(np_lines, return_index=True)
-    np_lines = np_lines[np.sort(idx)]
+    # (identical pedal lines are separate events of the pedal stream, not
+    # duplicates: a pedal may report the same value twice in one tick)
+    is_pedal = np.char.startswith(np_lines, "sustain(") | np.char.startswith(
+        np_lines, "soft("
+    )
+    np_lines = np_lines[np.union1d(idx, np.where(is_pedal)[0])]
     # Parse lines
     f = partial(
         parse_matchline, version=version, from_matchline_methods=from_matchline_methods
